@@ -113,7 +113,8 @@ def enc(o):
         return {"k": "none"}
     if isinstance(o, pendulum.tz.timezone.PendulumTimezone) or isinstance(o, _dt.tzinfo):
         z, zk = zref(o)
-        return {"k": "tz", "z": z, "zk": zk, "cls": type(o).__name__}
+        nm = getattr(o, "name", None)
+        return {"k": "tz", "z": z, "zk": zk, "cls": type(o).__name__, "name": cps(nm if isinstance(nm, str) else "?")}
     return {"k": "other", "cls": type(o).__name__}
 
 
@@ -233,6 +234,10 @@ def dec(v):
         names = {"y": "years", "mo": "months", "w": "weeks", "d": "days", "h": "hours", "mi": "minutes", "s": "seconds",
                  "ms": "milliseconds", "us": "microseconds"}
         return pendulum.Duration(**{names[k2]: val for k2, val in a.items() if val})
+    if k == "iv":
+        return pendulum.Interval(dec(v["a"]), dec(v["b"]), absolute=bool(v.get("abs")))
+    if k == "tz":
+        return tzobj(v["z"], v.get("zk", "pendulum"))
     raise ValueError("cannot decode %r" % (v,))
 
 
